@@ -1,5 +1,6 @@
 import IRModel.Lemmas.WrapSound
 import IRModel.Props.EngineThm
+import IRModel.Lemmas.EngineB
 /-! Glue between the traced wrappers and the engine theorems: what `_build_packet` receives from a traced `encode()`,
 what the traced `decode()` tree sees after the engine round trip, and the specification form of `c01OK`. -/
 namespace IRModel.Wrap
@@ -323,7 +324,7 @@ theorem isParamExpr_val (e : WExp) (name : String) (hi : Nat) (h : isParamExpr e
     encode parameters within the advertised upper bounds: the first frame `encode(**u)` emits is decoded by a
     history-free decoder of the protocol — base decoder plus the traced `decode()` wrapper — into a code that reports
     exactly `u` for every advertised parameter. -/
-theorem C01_wrapper_spec (t : Tables) (w : Wrapper) (tol : Match.Tol) (htol : tol.ok) (hw : wfAll t tol = true)
+theorem C01_wrapper_spec (t : Tables) (w : Wrapper) (tol : Match.Tol) (htol : tol.ok) (hw : EngineRT t tol)
     (p : Packet) (hS : C01Spec t w p) (u : String → Int) (hu : ∀ n, 0 ≤ u n)
     (hr : ∀ ep ∈ t.encodeParams, u ep.1 ≤ ep.2.2) :
     ∃ frame c, firstFrame t w u = .ok frame ∧
@@ -336,7 +337,7 @@ theorem C01_wrapper_spec (t : Tables) (w : Wrapper) (tol : Match.Tol) (htol : to
   have hitems := packetItems_eq t p envU hu' hS.args hS.fields
   rw [← hV] at hitems
   have hvals : (t.params.map V).length = t.params.length := by simp
-  obtain ⟨frame, hbuild, _, _, _, c, hdec, hcf, _⟩ := engine_roundtrip t tol htol hw (t.params.map V) hvals
+  obtain ⟨frame, hbuild, _, _, _, c, hdec, hcf, _⟩ := hw (t.params.map V) hvals
   rw [fieldsOf_map] at hbuild
   have hff : firstFrame t w u = .ok frame := by
     rw [firstFrame_of_packet t w u p hS.first, ← henvU]
